@@ -89,6 +89,19 @@ def expected (skip : List String) (metaRes : Bool) (ps : List V3) (r : Res) (off
     let slice := (ps.drop off).take r.atoms.length
     ⟨false, false, some (cog slice), (sortByIndex r.atoms).zip slice⟩
 
+/-! ### `gen_coords` with both `-c` and `-mc`: two calls, both counting from the first residue -/
+
+/-- attributes of a residue after a second call: the flags are overwritten, a position is overwritten
+only if the second call assigns one, the atom coordinates of the first call stay -/
+def mergeOut (a b : ResOut) : ResOut := ⟨b.build, b.backmap, b.pos <|> a.pos, a.atomPos ++ b.atomPos⟩
+
+/-- `add_positions_from_file(coordpath, resolution='mol')` followed by
+`add_positions_from_file(coordpath_meta, resolution='meta_mol')` -/
+def consumeBoth (skip : List String) (psC psM : List V3) (rs : List Res) : Option (List ResOut) :=
+  match consume skip false psC rs 0, consume skip true psM rs 0 with
+  | some a, some b => some (List.zipWith mergeOut a b)
+  | _, _ => none
+
 /-! ### engine index table of `from_topology(..., ignore)` and the write-back -/
 
 /-- `nodes_to_gndx`: ignored molecules get no entry but still count for the molecule index -/
